@@ -64,24 +64,18 @@ func builtinIntrinsics() map[string]intrinsic {
 	// verifStringN(n) / verifBytesN(n): arbitrary content of concrete length n
 	m["@verifStringN"] = func(p *Path, fr *frame, pos token.Pos, args []Value) Value {
 		n := p.concInt(args[0], "verifStringN length")
-		arr, ln := p.newInputBytes("string", n)
-		p.assume(p.st.Eq(ln, p.st.BV(64, uint64(n))))
+		bs := p.newInputFixed("string", n)
 		if n == 0 {
 			return p.emptyStr
 		}
-		bs := make([]*Term, n)
-		for i := range bs {
-			bs[i] = p.st.Select(arr, p.st.BV(64, uint64(i)))
-		}
-		return &Str{Sym: bs}
+		return &Str{Sym: append([]*Term(nil), bs...)}
 	}
 	m["@verifBytesN"] = func(p *Path, fr *frame, pos token.Pos, args []Value) Value {
 		n := p.concInt(args[0], "verifBytesN length")
-		arr, ln := p.newInputBytes("bytes", n)
-		p.assume(p.st.Eq(ln, p.st.BV(64, uint64(n))))
+		bs := p.newInputFixed("bytes", n)
 		out := make([]Value, n)
 		for i := range out {
-			out[i] = p.st.Select(arr, p.st.BV(64, uint64(i)))
+			out[i] = bs[i]
 		}
 		return out
 	}
@@ -571,6 +565,9 @@ func builtinIntrinsics() map[string]intrinsic {
 		p.lastTime = nxt
 		v[1] = nxt
 		return v
+	}
+	for _, f := range extraIntrinsics {
+		f(m)
 	}
 	return m
 }
